@@ -22,7 +22,7 @@ var monthWords = []string{"", "jan", "january", "feb", "february", "mar", "march
 	"sep", "september", "oct", "october", "nov", "november", "dec", "december", "xyz", "janx", "jan.", "sept"}
 var years = []string{"", "1", "9", "99", "999", "1583", "1900", "1983", "1984", "2000", "9999", "0", "10000", "0089"}
 var cases = []string{"lower", "UPPER", "Capital"}
-var spacings = []string{"single", "double", "triple", "quad", "lead-trail", "five"}
+var spacings = []string{"single", "double", "triple", "quad", "lead-trail", "five", "nine", "seventeen"}
 var junks = []string{"", "x", "1"}
 
 func applyCase(s, c string) string {
@@ -53,6 +53,10 @@ func assemble(tokens []string, spacing string) string {
 		sep = "   "
 	case "quad":
 		sep = "    "
+	case "nine":
+		sep = strings.Repeat(" ", 9)
+	case "seventeen":
+		sep = strings.Repeat(" ", 17)
 	case "five":
 		sep = "     "
 	}
@@ -431,7 +435,7 @@ func main() {
 	vlib.Main(&vlib.Check{
 		ID:    "C04",
 		Level: "exploration",
-		Rule: "cases: the product prefix(15 spellings+none) x case(3) x day class(14) x month word(23 documented + none + 4 near misses) x case(3) x year class(14) x spacing(6) x trailing junk(3) (quick: at most one of {prefix case, month case, spacing, junk} non-default); " +
+		Rule: "cases: the product prefix(15 spellings+none) x case(3) x day class(14) x month word(23 documented + none + 4 near misses) x case(3) x year class(14) x spacing(8: up to 17 spaces) x trailing junk(3) (quick: at most one of {prefix case, month case, spacing, junk} non-default); " +
 			"ranges: 8 between-words x 5 and-words x every ordered pair of " + fmt.Sprint(len(rangeParts())) + " representative date sentences; every calendar day of a year block as 'Abt. D Mon Y'; every upper/lower-case pattern of every documented word (prefixes, month names, between- and and-words) in 2-5 sentence frames each. Each compared with the reference parser. Non-trivial = reference verdict valid or invalid (not unspecified); distinct by sentence.",
 		Assumptions: []string{
 			"reference parser ref/date.go (token tables from the Date doc comment and the property's 15 keyword spellings) defines the documented meaning",
